@@ -5,6 +5,7 @@ CONSTANTS
   MaxE = 4
   StartVals = {0, 1, 3}
   Defaults = {0}
+  FamIdx = {1, 2, 3, 4, 5, 6}
   Bounds <- BoundsInf1
   EdgeSets <- CyclicEdgeSets3
 SPECIFICATION FairSpec
